@@ -127,3 +127,141 @@ impl<W> AdjacencyListWeighted<W> {
         }
     @*/
 }
+
+// ---- arcs_weighted ----
+
+/// `s` lists exactly the triples (u, v, &w) with `u < rows.len()`, `v` a key of `rows[u]` and `w` its weight, each arc exactly
+/// once, in ascending lexicographic order of (u, v). Stated over the raw rows: nothing is assumed about their validity.
+spec fn wa_warcs_of<W>(rows: Seq<BTreeMap<usize, W>>, s: Seq<(usize, usize, &W)>) -> bool {
+    &&& forall|u: usize, v: usize| u < rows.len() && #[trigger] rows[u as int]@.contains_key(v) ==> s.contains((u, v, &rows[u as int]@[v]))
+    &&& forall|i: int| 0 <= i < s.len() ==> (#[trigger] s[i]).0 < rows.len() && rows[s[i].0 as int]@.contains_key(s[i].1)
+            && *s[i].2 == rows[s[i].0 as int]@[s[i].1]
+    &&& forall|i: int, j: int| 0 <= i < j < s.len() ==> wctor_lex_lt(((#[trigger] s[i]).0, s[i].1), ((#[trigger] s[j]).0, s[j].1))
+}
+
+/// `acc` lists exactly the weighted arcs of the rows below `n`, ascending
+spec fn wa_wprefix<W>(rows: Seq<BTreeMap<usize, W>>, acc: Seq<(usize, usize, &W)>, n: int) -> bool {
+    &&& forall|a: usize, b: usize| a < n && a < rows.len() && #[trigger] rows[a as int]@.contains_key(b) ==> acc.contains((a, b, &rows[a as int]@[b]))
+    &&& forall|i: int| 0 <= i < acc.len() ==> (#[trigger] acc[i]).0 < n && acc[i].0 < rows.len() && rows[acc[i].0 as int]@.contains_key(acc[i].1)
+            && *acc[i].2 == rows[acc[i].0 as int]@[acc[i].1]
+    &&& forall|i: int, j: int| 0 <= i < j < acc.len() ==> wctor_lex_lt(((#[trigger] acc[i]).0, acc[i].1), ((#[trigger] acc[j]).0, acc[j].1))
+}
+
+/// the triples pushed for the first `n` items of row u
+spec fn wa_wrow_part<'a, W>(u: usize, items: Seq<(&'a usize, &'a W)>, n: int) -> Seq<(usize, usize, &'a W)> {
+    Seq::new(n as nat, |k: int| (u, *items[k].0, items[k].1))
+}
+
+proof fn lemma_wa_wrow_done<W>(rows: Seq<BTreeMap<usize, W>>, acc0: Seq<(usize, usize, &W)>, acc: Seq<(usize, usize, &W)>, u: usize, items: Seq<(&usize, &W)>)
+    requires
+        u < rows.len(),
+        wa_wprefix(rows, acc0, u as int),
+        wa_row_items(rows[u as int]@, items),
+        acc == acc0 + wa_wrow_part(u, items, items.len() as int),
+    ensures
+        wa_wprefix(rows, acc, u + 1),
+{
+    let n0 = acc0.len() as int;
+    let m = rows[u as int]@;
+    assert forall|a: usize, b: usize| a < u + 1 && a < rows.len() && #[trigger] rows[a as int]@.contains_key(b) implies acc.contains((a, b, &rows[a as int]@[b])) by {
+        if a < u {
+            assert(acc0.contains((a, b, &rows[a as int]@[b])));
+            let i = choose|i: int| 0 <= i < acc0.len() && acc0[i] == (a, b, &rows[a as int]@[b]);
+            assert(acc[i] == (a, b, &rows[a as int]@[b]));
+        } else {
+            assert(m.contains_key(b));
+            assert(items.contains((&b, &m[b])));
+            let k = choose|k: int| 0 <= k < items.len() && items[k] == (&b, &m[b]);
+            assert(acc[n0 + k] == (a, b, &m[b]));
+        }
+    }
+    assert forall|i: int| 0 <= i < acc.len() implies (#[trigger] acc[i]).0 < u + 1 && acc[i].0 < rows.len() && rows[acc[i].0 as int]@.contains_key(acc[i].1)
+        && *acc[i].2 == rows[acc[i].0 as int]@[acc[i].1] by {
+        if i < n0 { assert(acc[i] == acc0[i]); } else { assert(acc[i] == (u, *items[i - n0].0, items[i - n0].1)); }
+    }
+    assert forall|i: int, j: int| 0 <= i < j < acc.len() implies wctor_lex_lt(((#[trigger] acc[i]).0, acc[i].1), ((#[trigger] acc[j]).0, acc[j].1)) by {
+        if i < n0 { assert(acc[i] == acc0[i]); } else { assert(acc[i] == (u, *items[i - n0].0, items[i - n0].1)); }
+        if j < n0 { assert(acc[j] == acc0[j]); } else { assert(acc[j] == (u, *items[j - n0].0, items[j - n0].1)); }
+    }
+}
+
+/// `wa_warcs_of` implies, clause for clause, the contract that units dijkstra / bfm / floyd_warshall ASSUME for `arcs_weighted`
+/// of their opaque digraph (prelude/dgw_isize.rs, prelude/dgw_usize.rs), with has / wt of this representation
+proof fn lemma_wa_warcs_trait_contract<W>(g: AdjacencyListWeighted<W>, s: Seq<(usize, usize, &W)>)
+    requires wa_warcs_of(g.arcs@, s),
+    ensures
+        forall|i: int, j: int| 0 <= i < j < s.len() ==> !((#[trigger] s[i]).0 == (#[trigger] s[j]).0 && s[i].1 == s[j].1),
+        forall|u: usize, v: usize| g.has(u as int, v as int) ==> exists|i: int| 0 <= i < s.len() && (#[trigger] s[i]).0 == u && s[i].1 == v,
+        forall|i: int| 0 <= i < s.len() ==> g.has((#[trigger] s[i]).0 as int, s[i].1 as int) && *s[i].2 == g.wt(s[i].0 as int, s[i].1 as int),
+{
+    assert forall|i: int, j: int| 0 <= i < j < s.len() implies !((#[trigger] s[i]).0 == (#[trigger] s[j]).0 && s[i].1 == s[j].1) by {
+        assert(wctor_lex_lt((s[i].0, s[i].1), (s[j].0, s[j].1)));
+    }
+    assert forall|u: usize, v: usize| g.has(u as int, v as int) implies exists|i: int| 0 <= i < s.len() && (#[trigger] s[i]).0 == u && s[i].1 == v by {
+        assert(g.arcs@[u as int]@.contains_key(v));
+        let t = (u, v, &g.arcs@[u as int]@[v]);
+        assert(s.contains(t));
+        let i = choose|i: int| 0 <= i < s.len() && s[i] == t;
+        assert(s[i].0 == u && s[i].1 == v);
+    }
+}
+
+impl<W> AdjacencyListWeighted<W> {
+    /*@fn impl=AdjacencyListWeighted trait=ArcsWeighted name=arcs_weighted loopify=Vec noisolation fuse eager wrap=enumerate subst="Iterator<Item=(usize,usize,&W)>=>Iterator<Item=(usize,usize,&W)>+use<'_,W>" props=C01,C13
+    ensures
+        r.obeys_prophetic_iter_laws(),
+        r.decrease() is Some,
+        wa_warcs_of(self.arcs@, r.remaining()),
+    @fn_start
+        broadcast use vstd::laws_cmp::group_laws_cmp;
+        proof {
+            assert(vstd::laws_cmp::obeys_cmp::<usize>());
+            let rem = self.arcs@.as_ref();
+            assert forall|e: Seq<(usize, &BTreeMap<usize, W>)>| #[trigger] e.len() == rem.len() && (forall|i: int| 0 <= i < rem.len() ==> #[trigger] e[i] == (i as usize, rem[i]))
+                implies e == wa_enum_seq(rem) by { assert(e =~= wa_enum_seq(rem)); }
+            assert forall|src: Seq<(&usize, &W)>, f: spec_fn((&usize, &W)) -> usize, i: int, j: int|
+                #[trigger] vstd::std_specs::btree::increasing_seq(src.map_values(f)) && 0 <= i < j < src.len()
+                implies f(#[trigger] src[i]) < f(#[trigger] src[j]) by {
+                lemma_weighted_increasing(src.map_values(f), i, j);
+            }
+        }
+    @loop 1
+    invariant
+        it1.iter.obeys_prophetic_iter_laws(),
+        it1.iter.decrease() is Some,
+        it1.seq() == wa_enum_seq(self.arcs@.as_ref()),
+        wa_wprefix(self.arcs@, vx_acc1@, it1.index() as int),
+    @loop_start 1
+        let ghost acc0 = vx_acc1@;
+        proof {
+            let i = it1.index() as int;
+            assert(self.arcs@.len() == self.arcs.len());   // hence i fits a usize
+            assert(it1.seq()[i] == (i as usize, self.arcs@.as_ref()[i]));
+            // an empty row adds nothing
+            assert forall|items: Seq<(&usize, &W)>| #[trigger] wa_row_items(map@, items) && items.len() == 0 implies wa_wprefix(self.arcs@, acc0, u + 1) by {
+                assert(acc0 =~= acc0 + wa_wrow_part(u, items, 0));
+                lemma_wa_wrow_done(self.arcs@, acc0, acc0, u, items);
+            }
+        }
+    @loop 2
+    invariant
+        it2.iter.obeys_prophetic_iter_laws(),
+        it2.iter.decrease() is Some,
+        u == it1.index(),
+        u < self.arcs@.len(),
+        *map == self.arcs@[u as int],
+        wa_row_items(map@, it2.seq()),
+        wa_wprefix(self.arcs@, acc0, u as int),
+        vx_acc1@ == acc0 + wa_wrow_part(u, it2.seq(), it2.index@ as int),
+        it2.index@ == it2.seq().len() ==> wa_wprefix(self.arcs@, vx_acc1@, u + 1),
+    @loop_end 2
+        proof {
+            assert(vx_acc1@ =~= acc0 + wa_wrow_part(u, it2.seq(), it2.index@ + 1));
+            assert(it2.index@ + 1 == it2.seq().len() ==> wa_wprefix(self.arcs@, vx_acc1@, u + 1)) by {
+                if it2.index@ + 1 == it2.seq().len() {
+                    lemma_wa_wrow_done(self.arcs@, acc0, vx_acc1@, u, it2.seq());
+                }
+            }
+        }
+    @*/
+}
